@@ -201,6 +201,7 @@ func runC17(c *Ctx) {
 
 	ruleSizeArithmetic(c, "R17.7")
 	ruleCRCExtraPreimage(c, "R17.8")
+	ruleTypeAdmission(c, "R17.9")
 }
 
 func sameTags(a, b *types.Named) bool {
